@@ -42,8 +42,18 @@ var checks = map[string]checkFn{
 	"C08": seats.RunC08,
 	"C17": seats.RunC17,
 	"C18": seats.RunC18,
-	"C16": func(rep *explore.Report, tier string) { pots.RunC16(rep, tier); hand.RunC16InPlay(rep, tier) },
-	"C02": func(rep *explore.Report, tier string) { pots.RunC02(rep, tier); hand.RunC02InPlay(rep, tier) },
+	"C16": func(rep *explore.Report, tier string) {
+		pots.RunC16(rep, tier)
+		if rep.ViolationCount() == 0 { // a broken pot builder makes the in-play pass pointless (and, if it shares state, unsafe to run in parallel)
+			hand.RunC16InPlay(rep, tier)
+		}
+	},
+	"C02": func(rep *explore.Report, tier string) {
+		pots.RunC02(rep, tier)
+		if rep.ViolationCount() == 0 {
+			hand.RunC02InPlay(rep, tier)
+		}
+	},
 }
 
 var replayers = map[string]func(v *explore.Violation) (bool, string){
@@ -70,6 +80,11 @@ func main() {
 		// vcheck conc-child <harness> <preemption bound>: one C18 harness in its own process
 		b, _ := strconv.Atoi(args[2])
 		seats.RunHarnessChild(args[1], b)
+		os.Exit(0)
+	}
+	if args[0] == "scenes" {
+		// vcheck scenes: how the other hands of the scene grid go on this tree
+		hand.SceneSelfTest(os.Stdout)
 		os.Exit(0)
 	}
 	if args[0] == "probe" {
